@@ -223,6 +223,12 @@ class Ctx:
     def new_ctr(self):
         return self._new_heap.ctr
 
+    def old_ghost(self, name, sort):
+        return self._old_heap.sym.get(name, z3.Const(f"heap0_{name}", sort))
+
+    def new_ghost(self, name, sort):
+        return self._new_heap.sym.get(name, z3.Const(f"heap0_{name}", sort))
+
     def old_sym(self, name, content_sort):
         return self._old_heap.sym.get(name, z3.Const(f"heap0_{name}", z3.ArraySort(z3.IntSort(), content_sort)))
 
